@@ -586,8 +586,11 @@ func dischargePanic(c *Ctx, fk string, fn *ssa.Function, p *ssa.Panic) (bool, st
 			}
 		}
 		// default path returns an error
-		defErr := false
+		defErr := c.algEntryFields(tab) != nil && algDefaultIsError(c, tab)
 		for _, ret := range returnsOf(tab) {
+			if c.algEntryFields(tab) != nil {
+				break
+			}
 			idx := errResultIndex(tab.Signature)
 			for _, pe := range phiEdges(retResults(ret)[idx], ret.Block()) {
 				if _, lab := caseLabel(pe.From, func(v ssa.Value) bool { return v == ssa.Value(tab.Params[0]) }); !lab {
